@@ -730,10 +730,22 @@ func (env *SpecEnv) call(e *SExpr) SVal {
 				return SVal{T: fv.bytesToString(env.st, x.T, sl.Elem()), Typ: types.Typ[types.String]}
 			}
 			return x
-		case "called", "calledOK":
-			// called("Name") : an event with that callee name occurred on this path
+		case "mayHaveCalled":
+			// true unless no call of that name can have happened on this path (loops included)
 			name := args[0].Val
 			for _, ev := range env.st.events {
+				if ev.Name == name || strings.HasSuffix(ev.Name, "."+name) || strings.HasSuffix(ev.Name, ")."+name) || strings.HasSuffix(ev.Name, ":"+name) {
+					return SVal{T: True, Typ: types.Typ[types.Bool]}
+				}
+			}
+			return SVal{T: False, Typ: types.Typ[types.Bool]}
+		case "called", "calledOK":
+			// called("Name") : an event with that callee name definitely occurred on this path
+			name := args[0].Val
+			for _, ev := range env.st.events {
+				if ev.Maybe {
+					continue
+				}
 				if ev.Name == name || strings.HasSuffix(ev.Name, "."+name) || strings.HasSuffix(ev.Name, ")."+name) {
 					return SVal{T: True, Typ: types.Typ[types.Bool]}
 				}
@@ -743,6 +755,9 @@ func (env *SpecEnv) call(e *SExpr) SVal {
 			name := args[0].Val
 			n := 0
 			for _, ev := range env.st.events {
+				if ev.Maybe {
+					env.fail("ncalls(%q) after a loop that may call it", name)
+				}
 				if ev.Name == name || strings.HasSuffix(ev.Name, "."+name) || strings.HasSuffix(ev.Name, ")."+name) {
 					n++
 				}
